@@ -9,7 +9,7 @@
 static const time_t T0 = 1700000000;
 
 /* ================================================================== JSON tree family */
-static json_t *TREES[4096];
+static json_t *TREES[8192];
 static int NTREES, first_nul_tree, last_nul_tree;
 static long n_refused_nul;
 
@@ -33,10 +33,16 @@ static json_t *leaf(int i)
 	case 14: return json_false();
 	case 15: return json_integer(-9223372036854775807LL - 1);
 	case 16: return json_real(-0.0);
+	case 17: return json_real(0.30000000000000004);
+	case 18: return json_real(3.141592653589793);
+	case 19: return json_real(1.7976931348623157e308);
+	case 20: return json_real(5e-324);
+	case 21: return json_real(0.1);
+	case 22: return json_real(123456789.12345679);
 	default: return NULL;
 	}
 }
-#define NLEAF 17
+#define NLEAF 23
 
 static void build_trees(void)
 {
@@ -180,6 +186,24 @@ static void roundtrip_one(int pi, int tree, int sp, int vp, int topt)
 	ok &= jwt_builder_claim_set(b, &v) == JWT_VALUE_ERR_NONE;
 	jwt_set_SET_JSON(&v, NULL, htext);
 	ok &= jwt_builder_header_set(b, &v) == JWT_VALUE_ERR_NONE;
+	/* scalar leaves additionally travel through the typed setters (INT / STR / BOOL), in claims and headers */
+	if (json_is_integer(t) || json_is_string(t) || json_is_boolean(t)) {
+		for (int where = 0; where < 2; where++) {
+			const char *nm = where ? "th" : "tc";
+			if (json_is_integer(t))
+				jwt_set_SET_INT(&v, nm, (long)json_integer_value(t));
+			else if (json_is_string(t))
+				jwt_set_SET_STR(&v, nm, json_string_value(t));
+			else
+				jwt_set_SET_BOOL(&v, nm, json_is_true(t));
+			int rc = where ? jwt_builder_header_set(b, &v) : jwt_builder_claim_set(b, &v);
+			/* a string with an embedded NUL cannot be passed as a C string: the typed route carries its prefix */
+			if (rc == JWT_VALUE_ERR_NONE)
+				json_object_set_new(where ? eh : ec, nm, json_is_string(t) ? json_string(json_string_value(t)) : json_deep_copy(t));
+			else
+				ok = 0;
+		}
+	}
 	jwt_builder_enable_iat(b, iat);
 	jwt_builder_time_offset(b, JWT_CLAIM_NBF, nbf);
 	jwt_builder_time_offset(b, JWT_CLAIM_EXP, exp);
@@ -395,7 +419,7 @@ static void enumerate_c05(void)
 
 /* ================================================================== C10: ref_builder */
 enum { K_NONE, K_OCT, K_ES };
-enum { CB_NONE, CB_ADD, CB_SETKEY, CB_DELCLAIMS };
+enum { CB_NONE, CB_ADD, CB_SETKEY, CB_DELCLAIMS, CB_DROPKEY };
 typedef struct {
 	json_t *h, *c;
 	int iat, nbf, exp;   /* offsets; 0 = disabled */
@@ -408,13 +432,13 @@ enum {
 	B_CSET_IAT, B_CSET_NBF, B_CSET_EXP, B_CSET_SUB, B_CDEL_SUB, B_CDEL_ALL,
 	B_IAT_OFF, B_IAT_ON, B_EXP_NEG, B_EXP_0, B_EXP_60, B_NBF_NEG, B_NBF_0, B_NBF_60, B_OFF_IAT_BAD,
 	B_KEY_NONE, B_KEY_OCT, B_KEY_ES, B_KEY_ES_PUB,
-	B_CB_NULL, B_CB_ADD, B_CB_SETKEY, B_CB_DELCLAIMS,
+	B_CB_NULL, B_CB_ADD, B_CB_SETKEY, B_CB_DELCLAIMS, B_CB_DROPKEY,
 	B_GEN_T0, B_GEN_T1, NBOPS
 };
 static const char *bop_name[NBOPS] = { "header_set(typ,X)", "header_set(alg,none)", "header_set(kid,k)", "header_del(typ)", "header_del(all)", "claim_set(iat,7)", "claim_set(nbf,7)",
 	"claim_set(exp,7)", "claim_set(sub,s)", "claim_del(sub)", "claim_del(all)", "enable_iat(0)", "enable_iat(1)", "time_offset(EXP,-5)", "time_offset(EXP,0)",
 	"time_offset(EXP,60)", "time_offset(NBF,-5)", "time_offset(NBF,0)", "time_offset(NBF,60)", "time_offset(IAT,1)!", "setkey(none,NULL)", "setkey(none,oct+HS256)",
-	"setkey(ES256,P-256 private)", "setkey(ES256,P-256 public)!", "setcb(NULL)", "setcb(adds claim+header)", "setcb(selects HS256 key)", "setcb(deletes all claims)",
+	"setkey(ES256,P-256 private)", "setkey(ES256,P-256 public)!", "setcb(NULL)", "setcb(adds claim+header)", "setcb(selects HS256 key)", "setcb(deletes all claims)", "setcb(withdraws key and alg)",
 	"generate@T0", "generate@T0+1000" };
 
 static jwk_set_t *bk_oct, *bk_es, *bk_es_pub;
@@ -472,6 +496,7 @@ static void bmodel_step(bst_t *s, int op)
 	case B_CB_ADD: s->cb = CB_ADD; break;
 	case B_CB_SETKEY: s->cb = CB_SETKEY; break;
 	case B_CB_DELCLAIMS: s->cb = CB_DELCLAIMS; break;
+	case B_CB_DROPKEY: s->cb = CB_DROPKEY; break;
 	}
 }
 
@@ -495,6 +520,14 @@ static int cb_delclaims(jwt_t *jwt, jwt_config_t *cfg)
 {
 	(void)cfg;
 	jwt_claim_del(jwt, NULL);
+	return 0;
+}
+
+static int cb_dropkey(jwt_t *jwt, jwt_config_t *cfg)
+{
+	(void)jwt;
+	cfg->key = NULL;
+	cfg->alg = JWT_ALG_NONE;
 	return 0;
 }
 
@@ -530,6 +563,7 @@ static int bimpl_step(jwt_builder_t *b, int op)
 	case B_CB_ADD: return jwt_builder_setcb(b, cb_add, NULL);
 	case B_CB_SETKEY: return jwt_builder_setcb(b, cb_setkey, NULL);
 	case B_CB_DELCLAIMS: return jwt_builder_setcb(b, cb_delclaims, NULL);
+	case B_CB_DROPKEY: return jwt_builder_setcb(b, cb_dropkey, NULL);
 	}
 	return 0;
 }
@@ -579,6 +613,8 @@ static void check_generate(jwt_builder_t *b, const bst_t *s, time_t clock, const
 	int key = s->key;
 	if (s->cb == CB_SETKEY)
 		key = K_OCT;
+	else if (s->cb == CB_DROPKEY)
+		key = K_NONE;
 	json_t *eh = json_deep_copy(s->h), *ec = json_deep_copy(s->c);
 	if (s->iat) json_object_set_new(ec, "iat", json_integer(clock));
 	if (s->nbf) json_object_set_new(ec, "nbf", json_integer(clock + s->nbf));
